@@ -94,7 +94,11 @@ def run_sessions(run, sessions, label, quiet="2ms", cfg="PoolTrace.cfg", race=Fa
     faults = run_driver(run, binary, sp, tp, quiet=quiet)
     ns, nev, rejected = validate_traces(run, "PoolTrace.tla", cfg, tp)
     run.log("%s: %d sessions, %d events validated, %d rejected, %d driver faults" % (label, ns, nev, len(rejected), len(faults)))
-    hung = [(sid, evs) for sid, evs, idx in rejected if any(e.get("ev") == "timeout" for e in evs)]
+    # a session that hit its watchdog and whose recording is a behaviour of the specification up to that point; a
+    # rejection of an EARLIER event stands on its own (the recording up to it is what really happened)
+    def is_hang(evs, idx):
+        return any(e.get("ev") == "timeout" for e in evs) and (idx is None or evs[idx].get("ev") == "timeout")
+    hung = [(sid, evs) for sid, evs, idx in rejected if is_hang(evs, idx)]
     confirmed = set()
     if hung and label != "repro":
         # A watchdog timeout is a verdict only if the same session hangs again, alone, with ten times the budget.
@@ -123,7 +127,7 @@ def run_sessions(run, sessions, label, quiet="2ms", cfg="PoolTrace.cfg", race=Fa
                         "(not a verdict)" % sid)
     for sid, evs, idx in rejected:
         sess = by_id.get(sid)
-        if any(e.get("ev") == "timeout" for e in evs):
+        if is_hang(evs, idx):
             if sid in confirmed:
                 last = [e for e in evs if e.get("ev") != "timeout"][-6:]
                 run.violation("pool:%s:hang" % sess.get("kind"),
@@ -289,6 +293,52 @@ def check_c17(run):
                     script += [{"op": "burst", "reqs": final}, {"op": "quiesce"}]
                     sessions.append({"id": 200000 + nst, "kind": "capacity", "min": mn, "max": mx, "model": rng.randint(1, 4), "rules": [],
                                      "gated": False, "checkv": False, "gatehooks": False, "timeout": 5, "script": script})
+    # storms: many requests at full speed (no gates) on small pools, pops of one list overlapping hand-backs to the other;
+    # afterwards exactly max requests must be able to sit inside a rule at the same time (`fill`)
+    for i in range(6 if quick else 120):
+        mn = rng.randint(1, 2)
+        mx = mn + rng.randint(1, 2)
+        q = 0
+        script = []
+        for b in range(2):
+            reqs = []
+            for k in range(600 if quick else 1500):
+                q += 1
+                r = call_for("ExecuteSelectedRules", ["own"], 1)
+                r.update(q=q, keys=ISO_KEYS + ["kd"], fail="", noret=False, nodata=False)
+                reqs.append(r)
+            script.append({"op": "burst", "reqs": reqs})
+            fill = []
+            for k in range(mx):
+                q += 1
+                r = call_for("ExecuteSelectedRules", ["own"], 1)
+                r.update(q=q, keys=ISO_KEYS + ["kd"], fail="", noret=False)
+                fill.append(r)
+            script += [{"op": "quiesce"}, {"op": "fill", "reqs": fill}, {"op": "quiesce"}]
+        sessions.append({"id": 300000 + i, "kind": "capacity", "min": mn, "max": mx, "model": 1, "rules": [], "gated": False,
+                         "checkv": False, "gatehooks": False, "timeout": 20, "script": script})
+    # requests that pass an empty data map (their rules fail: nothing is injected) must hand their instance back too
+    for i in range(20 if quick else 400):
+        mn = rng.randint(1, 2)
+        mx = mn + rng.randint(1, 2)
+        q = 0
+        reqs = []
+        for k in range(rng.randint(mx, 3 * mx)):
+            q += 1
+            r = iso_req(q, rng, ISO_KEYS, "")
+            if rng.random() < 0.6:
+                r.update(nodata=True, keys=[], via="direct" if r["via"] == "em" else r["via"])
+            reqs.append(r)
+        fill = []
+        for k in range(mx):
+            q += 1
+            fill.append(iso_req(q, rng, ISO_KEYS, ""))
+        for r in fill:
+            if r.get("n", 0) > 4 or r["method"].startswith("ExecuteN") or r["method"].startswith("ExecuteSelectedN"):
+                r.update(call_for("Execute", [], 0))
+        sessions.append({"id": 400000 + i, "kind": "capacity", "min": mn, "max": mx, "model": rng.randint(1, 4), "rules": [],
+                         "gated": rng.random() < 0.5, "checkv": False, "gatehooks": False, "timeout": 6,
+                         "script": [{"op": "burst", "reqs": reqs}, {"op": "quiesce"}, {"op": "fill", "reqs": fill}, {"op": "quiesce"}]})
     if getattr(run, "collect", None) is not None:
         run.collect["capacity"] = sessions
         return 0
